@@ -510,7 +510,9 @@ def ord_scale_jobs(ctx, colls, deep=0, faults=0, flags=(), sweeps=True):
     futs = []
     for coll in (one_per_kind(colls) if q else colls):
         if kind_of(coll) in ("maplist", "setlist"):
-            futs.append(ctx.submit(f"scale-{coll}", coll, "scale", {"plan": ",".join(pairs + ["300:400"]), "seed": ctx.seed, "faults": faults}, flags=flags))
+            # (fault runs sweep the whole key universe after every injected panic: the pairs up to 80 entries)
+            lp = pairs + ["300:400"] if not faults else SCALE_PAIRS_Q[:3]
+            futs.append(ctx.submit(f"scale-{coll}", coll, "scale", {"plan": ",".join(lp), "seed": ctx.seed, "faults": faults}, flags=flags))
         else:
             # (fault runs log a snapshot and a round of look-ups per injected panic: the small pairs only)
             for i, pr in enumerate(pairs if not faults else pairs[:1] if q else ["15:26", "7:20", "23:30"]):
@@ -768,8 +770,17 @@ def plan_faults(ctx):
     ctx.model("mckey-f", "MCKey", key_consts(3, 2 if q else 3, faults=True), KEY_INV)
     ctx.model("mcord-a", "MCOrd", ord_consts(5 if q else 7), ORD_INV)
     ctx.model("mclist-f", "MCKeyList", {"Keys": keyset(3), "MaxTime": 3 if q else 4, "Faults": "TRUE"}, ["MinExpOK", "Refinement"])
-    # every callback point of one call from every valid tree x every pattern of expired / live nodes
-    ind_key_model(ctx, 4 if q else 5, faults=True)
+    # every callback point of one call from every valid tree x every pattern of expired / live nodes:
+    # on the model (PanicSafe at every entry of the callback log), and on the real trees from a sample of the
+    # start states (every callback index of every call at the time the short-lived entries have just expired)
+    kstates = ind_key_model(ctx, 4 if q else 5, emit=True, faults=True)
+    ostates = ind_ord_model(ctx, 6 if q else 8, emit=True)
+    indf = []
+    for i, pf in enumerate(write_shards(ctx, "indf-keytree", kstates, 2 if q else 6, ctx.seed, 30 if q else 900)):
+        indf.append(ctx.submit(f"indfaults-keytree-{i}", "keytree", "ind", {"states": pf, "faults": 1, "max_events": 400000}, flags=("fault",)))
+    for coll in ("maptree-i32", "settree-str"):
+        for i, pf in enumerate(write_shards(ctx, f"indf-{coll}", ostates, 1 if q else 4, ctx.seed, 14 if q else 400)):
+            indf.append(ctx.submit(f"indfaults-{coll}-{i}", coll, "ind", {"states": pf, "faults": 1, "max_events": 400000}, flags=("fault",)))
     seg_models(ctx, faults=True)
     futs = key_cover_jobs(ctx, ["keytree", "keylist"], 3, 2, [0], 2 if q else 4, driver="faults", limit=24 if q else 200,
                           flags=("fault",), max_events=60000 if q else 600000)
@@ -793,6 +804,7 @@ def plan_faults(ctx):
     # (ord scale driver), and of calls that have to purge expired entries from a dozen (key scale driver, round F)
     futs += ord_scale_jobs(ctx, ords, faults=1, flags=("fault",), sweeps=False)
     futs += key_scale_jobs(ctx, ["keytree", "keylist"], "F", flags=("fault",), sweeps=False)
+    futs += indf
     ctx.collect(futs)
     return ctx.finish("fault enumeration validated by TLC: for every covered state, every call of the alphabet and every callback "
                       "index j the call makes, the j-th user callback (Ord::cmp, comparator closure, key accessor, expiration "
